@@ -48,6 +48,17 @@ Fixpoint eqskip (keep : list bool) (a b : list nat) : bool :=
   | _, _, _ => true
   end.
 
+(* get_skip_pidx(snode, ttns, ttno): computed from the DoF lists of the STATE's basis node and of the OPERATOR's basis
+   node at the same position (DoFs as labels); [keep_mask] is the mask a [ptree] node carries for that pair *)
+Definition keep_mask (sdofs odofs : list nat) : list bool := map (fun d => existsb (Nat.eqb d) odofs) sdofs.
+Fixpoint skip_from (i : nat) (mask : list bool) : list nat :=
+  match mask with
+  | [] => []
+  | true :: m => skip_from (S i) m
+  | false :: m => i :: skip_from (S i) m
+  end.
+Definition skip_pidx (sdofs odofs : list nat) : list nat := skip_from O (keep_mask sdofs odofs).
+
 (* sum over one (bra, operator, ket) bond triple per child *)
 Fixpoint esum (E : list (nat * nat * nat * env3)) (f : list nat -> list nat -> list nat -> R) : R :=
   match E with
